@@ -209,15 +209,17 @@ func (e *Engine) RenderTo(w io.Writer, name string, context map[string]interface
 
 // Load loads a template by name
 func (e *Engine) Load(name string) (*Template, error) {
-	// Only check the cache if caching is enabled
-	if e.environment.cache {
+	// Templates the application registered itself (RegisterString, RegisterTemplate: no
+	// loader) are not cache entries and are served whatever the cache setting; what was
+	// loaded through a loader is only looked up when caching is enabled
+	{
 		// Use a quick check under read lock first to avoid contention
 		e.mu.RLock()
 		tmpl, ok := e.templates[name]
 		e.mu.RUnlock()
 
 		// If template exists in cache
-		if ok {
+		if ok && (e.environment.cache || tmpl.loader == nil) {
 			// If auto-reload is disabled, return the cached template immediately
 			if !e.autoReload {
 				return tmpl, nil
@@ -353,12 +355,11 @@ func (e *Engine) RegisterString(name string, source string) error {
 		loader:       nil, // String templates don't have a loader
 	}
 
-	// Only cache if caching is enabled
-	if e.environment.cache {
-		e.mu.Lock()
-		e.templates[name] = template
-		e.mu.Unlock()
-	}
+	// A registered template is kept whatever the cache setting (it has no loader to come
+	// back from)
+	e.mu.Lock()
+	e.templates[name] = template
+	e.mu.Unlock()
 
 	return nil
 }
@@ -408,8 +409,9 @@ func (e *Engine) RegisterTemplate(name string, template *Template) {
 		template.lastModified = time.Now().Unix()
 	}
 
-	// Only cache if caching is enabled
-	if e.environment.cache {
+	// Keep it when caching is enabled, and always when it did not come from a loader: a
+	// template registered by the application has nowhere else to be found
+	if e.environment.cache || template.loader == nil {
 		e.mu.Lock()
 		e.templates[name] = template
 		e.mu.Unlock()
